@@ -20,16 +20,24 @@ MANIFEST = {
             "fftshift with its centered/normalized/complex_input guards) are mutual inverses for all 8 flag combinations on one "
             "axis, over abstract per-axis operators, and on the tensor backend the driver runs; they preserve energy when "
             "normalised; with Mathlib's ZMod.dft as the per-axis transform the pair is an inverse pair and an isometry without "
-            "further hypotheses and the centred transform is the textbook shifted DFT scale * sum_j x_j w^(-(k-c)(j-c)), c = n div 2. "
+            "further hypotheses and the centred transform is the textbook shifted DFT scale * sum_j x_j w^(-(k-c)(j-c)), c = n div 2; "
+            "liftings of linear per-fibre maps along different axes commute (alongAxis_comm_linear), so for the concrete n-D "
+            "transform (per-axis ZMod DFT lifted through the alongAxis the driver runs) ifft2(fft2 x) = x = fft2(ifft2 x) and the "
+            "Parseval identity hold on every well-formed complex tensor, every duplicate-free axis tuple, all flags, with no "
+            "hypothesis left (ifft2_fft2_id_tensor_dft, fft2_energy_tensor_dft). "
             "Tied to the code by translated shift amounts / narrow offsets / cat order / call plan (bridge lemmas) and by "
             "differential correspondence (exact on labelled tensors for the shifts; symbolic root-of-unity answers vs torch "
             "under 1e-5 for fft2/ifft2 on basis tensors).",
-    "note": "Trusted: Lean kernel (+propext, Classical.choice, Quot.sound), the AST translator, and torch.fft.fftn/ifftn being the "
-            "per-axis DFT pair with the stated normalisation (a hypothesis of the abstract theorems — inverse pair, isometry, "
-            "commutation of its per-axis factors; proved for the Mathlib DFT on one axis; probed on every basis-vector class by "
-            "the correspondence and against numpy and the explicit DFT matrix by the oracle). Float32 rounding is outside the "
-            "theorems (tolerances 1e-5/1e-4). The n-D DFT formula is the per-axis composition of the proved 1-D formula; it is "
-            "not restated as a single n-D sum.",
+    "note": "Trusted: Lean kernel (+propext, Classical.choice, Quot.sound), the AST translator, and ONE assumption about the external "
+            "transform: torch.fft.fftn/ifftn(x, dim=dims, norm) is the composition of the 1-D DFTs along the axes of dims with the "
+            "per-axis scale of the norm (checked on every run by the oracle against sequential 1-D ffts and the explicit DFT "
+            "matrix for all four norm values, and on every basis-vector class by the correspondence). Everything else about the "
+            "transform (inverse pair, isometry, commutation across axes) is proved for the Mathlib DFT. Call sites: operators are "
+            "also exercised as the engines obtain them (str_to_class / build_operators on every operator string of the shipped "
+            "YAMLs and DefaultConfig, dim literals of the model classes, tuple and list) and on strided / permuted / offset / "
+            "expanded views (same result, input untouched, no aliasing). Float32 rounding is outside the theorems (tolerances "
+            "1e-5/1e-4). The n-D DFT formula is the per-axis composition of the proved 1-D formula; it is not restated as a "
+            "single n-D sum.",
     "technique": "Lean 4 proof (list/index arithmetic, plan interpretation, alongAxis lifting, Mathlib ZMod.dft) + AST translation "
                  "bridge + differential correspondence + property oracle",
 }
@@ -783,8 +791,12 @@ def oracle(ctx: Ctx, deep: bool = False):
                 yield Violation(f"views/{nm}-raises", f"{nm} raises {err_name(e)} on a {kind} view of a valid tensor",
                                 {"op": "view", "fn": nm, "kind": kind, "shape": shape_c, "dims": list(dims), "observed": repr(e)[:200]})
                 continue
-            if out.shape != exp.shape or not torch.equal(torch.view_as_real(out) if out.is_complex() else out,
-                                                         torch.view_as_real(exp) if exp.is_complex() else exp):
+            o_r = torch.view_as_real(out) if out.is_complex() else out
+            e_r = torch.view_as_real(exp) if exp.is_complex() else exp
+            # shifts only move entries (exact); the FFT may take another code path for strided input (float32 rounding)
+            same = out.shape == exp.shape and (torch.equal(o_r, e_r) if nm.endswith("shift")
+                                               else torch.allclose(o_r, e_r, rtol=1e-5, atol=1e-4 * max(1.0, float(e_r.abs().max()))))
+            if not same:
                 yield Violation(f"views/{nm}-differs", f"{nm} on a {kind} view differs from {nm} on the contiguous copy",
                                 {"op": "view", "fn": nm, "kind": kind, "shape": shape_c, "dims": list(dims)})
             if not torch.equal(torch.view_as_real(x) if x.is_complex() else x, torch.view_as_real(ref_in) if ref_in.is_complex() else ref_in):
